@@ -1329,6 +1329,39 @@ ASSUMPTIONS += [
     "that name defined in a class of the package (tests excluded); names of "
     "builtin container / str methods denote those builtins",
 ]
+# rules/c04_dedup.py (R4.11)
+EXPLANATION += (
+    "  R4.11 (rules/c04_dedup.py) decides the uniqueness of the error report "
+    "semantically: in a supersede loop (a new error is compared with every "
+    "error already kept for the same traceback-free representation) every "
+    "kept entry whose traceback the new one is a tail of must be dropped - "
+    "the scan continues after the first - the new error is dropped iff a "
+    "kept entry is a tail of / equal to it, and it is added at most once "
+    "after the whole scan.  Instead of matching the loop's text the rule "
+    "evaluates ErrorLog.unique_sorted_errors (its AST, the module-level "
+    "helpers, methods and properties of ErrorLog / Error it calls, with "
+    "rules/_minieval; nothing is imported) on model logs: all sequences of "
+    "<= 3 errors with tracebacks from {none, g, a<-g, b<-g, c<-a<-g, d}, "
+    "all sequences of 4 with >= 3 different tracebacks sharing the last "
+    "frame, and logs of two interleaved errors (480 logs), and requires: "
+    "only logged error objects are reported, none twice; no two reports of "
+    "one error have comparable tracebacks; the reported tracebacks of an "
+    "error are exactly the minimal ones of those logged (hence independent "
+    "of the log order) whenever no prefix of the log has more minimal "
+    "tracebacks than the per-error cap, which is measured by probing with "
+    "pairwise unrelated tracebacks (3 today); groups appear in (file, line) "
+    "order.  A construct outside the evaluated fragment is an analysis "
+    "error.  Blind spots: scope is bounded (<= 5 errors, <= 3 frames, the "
+    "cap is never exceeded inside the scope); the grouping key is the "
+    "model's (Error.get_unique_representation is supplied by the model, "
+    "not evaluated); how tracebacks are produced (_make_traceback_str, "
+    "truncation) is not covered.")
+ASSUMPTIONS += [
+    "R4.11: a traceback string is TRACEBACK_MARKER + one '\\n  '-prefixed "
+    "line per frame (as _make_traceback_str builds it) or None; two Error "
+    "objects compare by identity (Error defines no __eq__); list/dict/str "
+    "operations have the host interpreter's semantics",
+]
 
 IO = "pytype/io.py"
 PYTD_UTILS = "pytype/pytd/pytd_utils.py"
